@@ -976,7 +976,9 @@ where
     /// # Errors
     /// Fails because of any IO errors.
     pub async fn fsyncdata(&self) -> IOResult<()> {
-        self.inner.fsyncdata().await
+        // Explicit request: sync unconditionally. The dirty bytes threshold and the single-flight flag
+        // of `Inner::fsyncdata` are meant for the background task only
+        self.inner.safe.read().await.fsyncdata().await
     }
 
     /// Force updates active blob on new one to dump index of old one on disk and free RAM.
